@@ -1957,13 +1957,11 @@ where
             return Err(RadioError::InvalidBandwidthForFrequency);
         }
 
-        let mut low_data_rate_optimize = 0x00u8;
-        if (((spreading_factor == SpreadingFactor::_11) || (spreading_factor == SpreadingFactor::_12))
-            && (bandwidth == Bandwidth::_125KHz))
-            || ((spreading_factor == SpreadingFactor::_12) && (bandwidth == Bandwidth::_250KHz))
-        {
-            low_data_rate_optimize = 0x01u8;
-        }
+        // LowDataRateOptimize is mandated whenever the symbol time reaches 16.38 ms,
+        // not only for the three LoRaWAN pairs: use the same symbol-time rule as the
+        // airtime calculator so both ends of a link agree
+        let low_data_rate_optimize =
+            lora_modulation::BaseBandModulationParams::new(spreading_factor, bandwidth, coding_rate).ldro as u8;
 
         Ok(ModulationParams {
             spreading_factor,
